@@ -745,7 +745,7 @@ impl Check for C05 {
     }
     fn scenarios(&self, tier: Tier) -> u64 {
         match tier {
-            Tier::Quick => 400,
+            Tier::Quick => 600,
             Tier::Thorough => 12000,
         }
     }
